@@ -5,6 +5,7 @@ import (
 	"encoding/hex"
 	"errors"
 	"fmt"
+	"io"
 	plugin "simworld/goplugin"
 	"sync"
 	"sync/atomic"
@@ -71,7 +72,7 @@ func init() {
 					ns = 2000
 				}
 				for v := 0; v < ns; v++ {
-					s := sp("C11", fmt.Sprintf("second-host/%d", v), seed+uint64(v)*7919, P("proto", "grpc", "secondhost", "1"))
+					s := sp("C11", fmt.Sprintf("second-host/%d", v), seed+uint64(v)*7919, P("proto", "grpc", "secondhost", "1", "astalled", []string{"", "", "1"}[v%3]))
 					if v >= 8 {
 						s.HotPermille, s.DelayClass, s.Focus = 50, "tiny", "grpc_stdio.go"
 					}
@@ -205,6 +206,25 @@ func runC11WriterError(r *h.Run) {
 	r.DoNoHang("Kill", 120*time.Second, ctx, func() (any, error) { cl.Kill(); return nil, nil })
 }
 
+// gateWriter passes writes through until armed, then blocks them until released.
+type gateWriter struct {
+	w       io.Writer
+	mu      sync.Mutex
+	armed   bool
+	release chan struct{}
+}
+
+func (g *gateWriter) arm() { g.mu.Lock(); g.armed = true; g.mu.Unlock() }
+func (g *gateWriter) Write(p []byte) (int, error) {
+	g.mu.Lock()
+	a := g.armed
+	g.mu.Unlock()
+	if a {
+		<-g.release
+	}
+	return g.w.Write(p)
+}
+
 type c11Write struct {
 	stream string
 	size   int
@@ -221,6 +241,14 @@ func runC11SecondHost(r *h.Run) {
 	ctx := "conf=" + c.String() + " second-host"
 	soA, seA, soB, seB := &syncBuf{}, &syncBuf{}, &syncBuf{}, &syncBuf{}
 	c.SyncStdout, c.SyncStderr = soA, seA
+	// astalled: host A has stopped consuming its stdout stream (its writer is
+	// stuck) with output in flight when its connection goes away
+	aStalled := r.Spec.P("astalled", "") == "1"
+	gate := &gateWriter{w: soA, release: make(chan struct{})}
+	if aStalled {
+		ctx += " host-A-stalled-with-output-in-flight"
+		c.SyncStdout = gate
+	}
 	var mu sync.Mutex
 	hostEnds := map[*k.Endpoint]bool{}
 	w.OnConnWrite = func(e *k.Endpoint, data []byte) {
@@ -272,6 +300,25 @@ func runC11SecondHost(r *h.Run) {
 		r.Violate("setup", "no reattach config "+ctx, "")
 		return
 	}
+	// (enough to fill host A's flow-control window AND the server's write quota
+	// - 64 KiB each - and so leave its handler
+	// inside Send, little enough for the plugin's own write to complete: two
+	// writers on the pipe at once would leave the order undefined)
+	const floodN = 170000
+	if aStalled {
+		gate.arm()
+		cmdA := o.Val.(plugins.Cmd)
+		fo := r.Do("A.flood", 20*time.Second, func() (any, error) {
+			return cmdA.Do("stdout", hex.EncodeToString(bytes.Repeat([]byte{'A'}, floodN)))
+		})
+		if fo.Hung || fo.Err != nil {
+			w.Probe("stdio.second-host.flood-did-not-complete")
+			aStalled = false
+			close(gate.release)
+			gate.release = make(chan struct{})
+		}
+		time.Sleep(time.Second)
+	}
 	// host A goes away without a word
 	mu.Lock()
 	for e := range hostEnds {
@@ -303,6 +350,13 @@ func runC11SecondHost(r *h.Run) {
 		r.Violate("setup", "host B "+ctx, fmt.Sprint(ob.Err))
 		return
 	}
+	if aStalled {
+		// (the plugin's own write was stuck behind what host A left in the pipe;
+		// B's marker must come after it for the expected order to be defined)
+		for i := 0; i < 300 && !written.Load(); i++ {
+			time.Sleep(100 * time.Millisecond)
+		}
+	}
 	ob.Val.(plugins.Cmd).Do("stdout", hex.EncodeToString([]byte("seen by B\n")))
 	wantOut := append(append([]byte(nil), dOut...), []byte("seen by B\n")...)
 	for waited := time.Duration(0); waited < 20*time.Second; waited += 200 * time.Millisecond {
@@ -314,13 +368,25 @@ func runC11SecondHost(r *h.Run) {
 	if !written.Load() {
 		r.Violate("stdio-stalled", ctx, "the plugin's writes while no host was attached never completed")
 	}
-	if got := soB.Bytes(); !bytes.Equal(got, wantOut) {
+	if aStalled {
+		// what host A had not taken yet may reach B first (it was written before
+		// B attached); then, complete and in order, the rest
+		close(gate.release)
+		got := soB.Bytes()
+		i := 0
+		for i < len(got) && got[i] == 'A' && !bytes.HasPrefix(got[i:], wantOut) {
+			i++
+		}
+		if !bytes.Equal(got[i:], wantOut) {
+			r.Violate("stdio-lost", ctx+" stream=out", fmt.Sprintf("after %d bytes left over from host A's time, host B holds %d bytes, want the %d written since: %q", i, len(got)-i, len(wantOut), firstN(string(got[i:]), 80)))
+		}
+	} else if got := soB.Bytes(); !bytes.Equal(got, wantOut) {
 		r.Violate("stdio-lost", ctx+" stream=out", describeDiff(got, wantOut, dErr)+fmt.Sprintf(" (bytes written while no host was attached: %d)\n got: %q\nwant: %q\nhost A has: %q", nOut, firstN(string(got), 80), firstN(string(wantOut), 80), firstN(string(soA.Bytes()), 80)))
 	}
 	if got := seB.Bytes(); !bytes.Equal(got, dErr) {
 		r.Violate("stdio-lost", ctx+" stream=err", describeDiff(got, dErr, dOut))
 	}
-	if bytes.Contains(soA.Bytes(), dOut[:min(len(dOut), 8)]) && nOut >= 8 {
+	if bytes.Contains(soA.Bytes(), dOut[:min(len(dOut), 8)]) && nOut >= 8 && !aStalled {
 		r.Violate("stdio-corrupt", ctx+" stream=out to-departed-host", "bytes written after host A's connection was gone arrived at host A's writer")
 	}
 	w.Probe("stdio.second-host")
